@@ -139,10 +139,15 @@ func VC18Bag() {
 		vAssume(conns[0].id != conns[1].id)
 		msgs = []*bMsg{mkMsg("m0", conns[1].id, 1), mkMsg("m1", conns[0].id, 1)}
 		order = []int{0, 1, 0, -1, -2}
+	case 3:
+		// one message larger than the converter's initial 1 MiB record buffers (param big = its size), then a small one
+		conns = []*bConn{mkConn("c0", 1, false)}
+		msgs = []*bMsg{mkMsg("m0", conns[0].id, vParam("big")), mkMsg("m1", conns[0].id, 2)}
+		order = []int{0, -1, -2}
 	}
 	bag := vBag(conns, msgs, order, chunked)
 	sink := &vSinkR{}
-	err := Bag2MCAP(sink, bytes.NewReader(bag), &mcap.WriterOptions{Chunked: mchunk, ChunkSize: 1, IncludeCRC: true})
+	err := Bag2MCAP(sink, bytes.NewReader(bag), &mcap.WriterOptions{Chunked: mchunk, ChunkSize: 1, IncludeCRC: shape != 3})
 	tooMany := false
 	for _, c := range conns {
 		tooMany = vOr(tooMany, c.id > 65535)
